@@ -175,7 +175,7 @@ func firstDiff(m, i StateJ) string {
 		n    string
 		a, b interface{}
 	}{{"hb", m.Hb, i.Hb}, {"leaders", m.Leaders, i.Leaders}, {"shards", m.Shards, i.Shards}, {"clusters", m.Clusters, i.Clusters},
-		{"conds", m.Conds, i.Conds}, {"fcs", m.Fcs, i.Fcs}, {"listed", m.Listed, i.Listed}}
+		{"conds", m.Conds, i.Conds}, {"fcs", m.Fcs, i.Fcs}, {"listed", m.Listed, i.Listed}, {"locks", m.Locks, i.Locks}}
 	for _, p := range parts {
 		if a, b := rig.Canon(p.a), rig.Canon(p.b); a != b {
 			if len(a) > 400 {
@@ -339,7 +339,7 @@ func runOne(c *rig.Ctx, cs Case, origin string) {
 	for name, b := range map[string]bool{"hit:reclaimed-by-timeout-pass": f.reclaimTimeout, "hit:reclaimed-by-unknown-pass": f.reclaimUnknown,
 		"hit:live-instance-survived-a-reclaiming-pass": f.liveSurvived, "hit:upstream-deleted-by-unknown-pass": f.upstreamDeleted,
 		"hit:store-dropped-by-leaderCheck": f.storeDropped, "hit:instance-returned-after-reclaim": f.returned,
-		"hit:request-rejected(notLeader/noStore/notFound/typeMismatch)": f.rejected, "hit:RequestIDTooOld": f.tooOld} {
+		"hit:request-rejected(notLeader/noStore/noLock/notFound/typeMismatch)": f.rejected, "hit:RequestIDTooOld": f.tooOld} {
 		if b {
 			c.Count(name)
 		}
